@@ -106,7 +106,24 @@ pub fn run(ctx: &'static Ctx) {
     // lower-case hex digits are accepted by to_digit(16): same value expected (the property lists them neither way)
     // malformed EISA ids: wrong length, non-hex digit
     let mut bad = 0;
-    for s in ["", "A", "PNP0A0", "PNP0A033", "PNP0G03", "PNPZ003", "PNP 003", "PNP0A0-"] {
+    let mut bad_ids: Vec<String> = ["", "A", "PNP0A0", "PNP0A033", "PNP0G03", "PNPZ003", "PNP 003", "PNP0A0-"].iter().map(|s| s.to_string()).collect();
+    // a non-hex character at each digit position (sign characters and separators included), over three backgrounds
+    for bg in ["PNP0A03", "ABC1234", "ZZZFFFF"] {
+        for pos in 3..7 {
+            for c in ['+', '-', ' ', 'g', 'G', 'x', 'X', '.', ':', '/', '@', 'Z', '_', '\\', 'h', '`'] {
+                let mut v: Vec<char> = bg.chars().collect();
+                v[pos] = c;
+                bad_ids.push(v.into_iter().collect());
+            }
+        }
+        // every length 0..=12 other than 7
+        for len in 0..=12usize {
+            if len != 7 {
+                bad_ids.push(bg.chars().cycle().take(len).collect());
+            }
+        }
+    }
+    for s in &bad_ids {
         bad += 1;
         ctx.tr(1);
         if let Ok(b) = catch(|| ser(&EISAName::new(s))) {
@@ -177,7 +194,7 @@ pub fn run(ctx: &'static Ctx) {
         refuse(std::str::from_utf8(&s).unwrap(), "dash-position");
     }
     for p in &hexpos {
-        for c in [b'-', b'g', b' ', b'x'] {
+        for c in [b'-', b'g', b' ', b'x', b'+', b'G', b'.', b'/', b':', b'@', b'`', b'_'] {
             let mut s = good.as_bytes().to_vec();
             s[*p] = c;
             refuse(std::str::from_utf8(&s).unwrap(), "non-hex");
